@@ -1194,6 +1194,37 @@ fn dispatch2(entry: &str, beh: &str, lb_override: &str, data: &[u8]) -> String {
             return format!("generic entry point does not go through an overriding call_ctap2: log={}", o.0.log.iter().map(|l| l.split(' ').next().unwrap_or("")).collect::<Vec<_>>().join(","));
         }
     }
+    // the same call through a borrowed handle (`&mut &mut A`, as obtained from Option<&mut A>::as_mut() or iter_mut()): method
+    // resolution must end at the same handlers (a forwarding impl for `&mut A` that forgets a provided method would not)
+    {
+        let bh = Beh { err2, err1: None, log: vec![] };
+        let (rh, logh) = if lb_override == "1" {
+            let mut m = MockLb(bh);
+            let mut r1 = &mut m;
+            let h: &mut &mut MockLb = &mut r1;
+            let r = if entry == "rpc" { h.call(&req) } else { h.call_ctap2(&req) };
+            (r, m.0.log)
+        } else {
+            let mut m = MockDefault(bh);
+            let mut r1 = &mut m;
+            let h: &mut &mut MockDefault = &mut r1;
+            let r = if entry == "rpc" { h.call(&req) } else { h.call_ctap2(&req) };
+            (r, m.0.log)
+        };
+        let show = |r: &ctap2::Result<ctap2::Response>| match r {
+            Ok(r) => format!("ok:{}", resp2_name(r)),
+            Err(e) => format!("err:{:x}", *e as u8),
+        };
+        if logh != log || show(&rh) != show(&res) {
+            return format!(
+                "the call through a borrowed handle differs: log={} result={} (direct: log={} result={})",
+                logh.iter().map(|l| l.split(' ').next().unwrap_or("")).collect::<Vec<_>>().join(","),
+                show(&rh),
+                log.iter().map(|l| l.split(' ').next().unwrap_or("")).collect::<Vec<_>>().join(","),
+                show(&res)
+            );
+        }
+    }
     let names: Vec<&str> = log.iter().map(|l| l.split(' ').next().unwrap_or("")).collect();
     let same = log.iter().all(|l| *l == expected_param(&req));
     let r = match &res {
@@ -1249,6 +1280,15 @@ fn dispatch1(entry: &str, beh: &str, raw: &[u8]) -> String {
         }
     }
     let res = if entry == "rpc" { Rpc::call(&mut m, &req) } else { m.call_ctap1(&req) };
+    {
+        let mut mh = MockDefault(Beh { err2: None, err1, log: vec![] });
+        let mut r1 = &mut mh;
+        let h: &mut &mut MockDefault = &mut r1;
+        let rh = if entry == "rpc" { h.call(&req) } else { h.call_ctap1(&req) };
+        if mh.0.log != m.0.log || format!("{:?}", rh) != format!("{:?}", res) {
+            return format!("the call through a borrowed handle differs: log={:?} result={:?}", mh.0.log.len(), rh.is_ok());
+        }
+    }
     let names: Vec<&str> = m.0.log.iter().map(|l| l.split(' ').next().unwrap_or("")).collect();
     let expected = match &req {
         ctap1::Request::Register(r) => format!("register {:?}", r),
